@@ -1,7 +1,8 @@
 (* C15 — exported theorems only: each is closed by [exact] and followed by Print Assumptions. *)
 From Coq Require Import List ZArith Bool.
-From Verif Require Import C15.Model C15.Spec C15.Proofs C15.Proofs_maps C15.Proofs_reach
-     C15.Proofs_inv C15.Proofs_spec C15.Proofs_ns C15.Proofs_hist C15.Proofs_examples.
+From Verif Require Import C15.Model C15.Spec C15.Informer C15.SpecInf C15.Proofs C15.Proofs_maps C15.Proofs_reach
+     C15.Proofs_inv C15.Proofs_spec C15.Proofs_ns C15.Proofs_hist C15.Proofs_examples
+     C15.Proofs_inf_base C15.Proofs_inf_apply C15.Proofs_inf_hist C15.Proofs_inf_examples.
 Import ListNotations.
 Open Scope Z_scope.
 
@@ -74,6 +75,80 @@ Theorem c15_prop_code_model : forall g rs, prop_code g rs (trace (init_topo g) r
 Proof. exact prop_code_trace. Qed.
 Print Assumptions c15_prop_code_model.
 
+(* ---------------------------------------------------------------- informer deliveries *)
+
+(* histories in which admission requests and informer deliveries (OnQuotaAdd/Update/Delete) are
+   interleaved in any way: the whole-history decision procedure that bin/check evaluates on the
+   implementation's observables (Extract.prop_case = SpecInf.eprop_code) holds on the model's own
+   observable, for every history in which no update that is admitted UNCHECKED switches the
+   allow-force-update / is-root label (see c15_unchecked_flag_drop_refuted) *)
+Theorem c15_informer_prop_code_model : forall g es,
+  forallb flag_stable_ev es = true -> eprop_code g es (etrace (init_topo g) es) = 0.
+Proof. exact eprop_code_trace. Qed.
+Print Assumptions c15_informer_prop_code_model.
+
+(* the same as a statement about records: as long as every delivery was a covered one (the
+   replica's own echo, repeated or not; the write of a peer that is in step), the record is a
+   well-formed tree, binds exactly the namespaces the admitted objects declare, and shows
+   exactly the admitted objects *)
+Theorem c15_informer_histories_wf : forall g es,
+  forallb flag_stable_ev es = true ->
+  let j := ejudge (init_judge g) es in
+  j_ord j = true ->
+  WF (erun g es)
+  /\ (j_cons j = true -> NsOK (j_st j) (erun g es))
+  /\ (j_full j = true -> StoreOK (j_st j) (erun g es)).
+Proof. exact covered_history_wf. Qed.
+Print Assumptions c15_informer_histories_wf.
+
+(* the echo: on a record that already shows the write, its handler does not panic and changes
+   no lookup (quota map, children index, namespace map) — any number of times *)
+Theorem c15_echo_changes_nothing : forall s w,
+  Applied w s -> exists s', inf_apply s w = (s', false) /\ text s' s.
+Proof. exact applied_noop. Qed.
+Print Assumptions c15_echo_changes_nothing.
+
+(* whatever the record, after a handler ran without panicking the record shows the write *)
+Theorem c15_handler_applies : forall s w s',
+  wf_op w = true -> inf_apply s w = (s', false) -> Applied w s'.
+Proof. exact applied_after. Qed.
+Print Assumptions c15_handler_applies.
+
+(* the validating path leaves every write it admits applied (so its echo changes nothing) *)
+Theorem c15_admitted_is_applied : forall s st r,
+  WF s -> mem ROOT (hier s) = true -> NsOK st s -> StoreOK st s ->
+  cons_full st (snd r) = true -> wf_op (snd r) = true -> code s r = 0 ->
+  Applied (snd r) (step s r).
+Proof. exact req_applied. Qed.
+Print Assumptions c15_admitted_is_applied.
+
+(* the write of a peer replica, delivered to a replica that is in step (well-formed record that
+   shows the store; the event carries the stored old object; this replica would admit the write
+   itself): the handler does not panic and leaves a well-formed record that shows the new store *)
+Theorem c15_peer_write : forall s st pods w,
+  sorted_topo s -> ksorted st ->
+  WF s -> mem ROOT (hier s) = true -> NsOK st s -> StoreOK st s ->
+  flag_stable_op w = true -> cons_full st w = true -> accepted s (pods, w) = true ->
+  exists s', inf_apply s w = (s', false) /\ WF s' /\ mem ROOT (hier s') = true
+             /\ NsOK (store_step st true (pods, w)) s' /\ StoreOK (store_step st true (pods, w)) s'.
+Proof. exact peer_written. Qed.
+Print Assumptions c15_peer_write.
+
+(* clause 22 read back *)
+Theorem c15_infos_okb_sound : forall st s, infos_okb st s = true ->
+  (forall name q, find name st = Some q -> exists i, find name (infos s) = Some i /\ shows i q = true)
+  /\ (forall name i, find name (infos s) = Some i -> mem name st = true).
+Proof. exact infos_okb_sound. Qed.
+Print Assumptions c15_infos_okb_sound.
+
+(* OPEN FINDING: without the restriction the theorem is false of the faithful model — an update
+   that only removes allow-force-update is admitted unchecked, and its echo leaves a record
+   whose children's mins exceed the parent's min (clause 14) *)
+Theorem c15_unchecked_flag_drop_refuted : exists g es,
+  forallb flag_stable_ev es = false /\ eprop_code g es (etrace (init_topo g) es) = 14.
+Proof. exists gg, h_flag. exact (conj (proj1 (proj2 ex_flag_drop)) (proj2 (proj2 (proj2 ex_flag_drop)))). Qed.
+Print Assumptions c15_unchecked_flag_drop_refuted.
+
 (* ---------------------------------------------------------------- non-vacuity / regressions *)
 Example c15_ex_tree_accepted : map fst (trace (init_topo (false, false)) h_tree) = [true; true; true; true].
 Proof. exact ex_tree_accepted. Qed.
@@ -131,3 +206,24 @@ Example c15_ex_gate_guar :
   /\ code (run (false, true) [([], Add T0)]) ([], Add K5) = 4
   /\ code (run (false, false) [([], Add T0)]) ([], Add K5) = 0.
 Proof. exact ex_gate_guar. Qed.
+(* informer deliveries: a history whose deliveries are all covered (echo, repeated echo, a peer's
+   create, a resync) satisfies the hypothesis and the judge; damaged records are named *)
+Example c15_ex_echo_history :
+  forallb flag_stable_ev h_echo = true
+  /\ classes (init_judge gg) h_echo = [CEcho; CEcho; CEcho; CPeer; CPeer]
+  /\ map fst (etrace (init_topo gg) h_echo) = [1; 1; 1; 1; 1; 1; 1; 0].
+Proof. exact (conj ex_echo_flag_stable (conj ex_echo_classes ex_echo_outcomes)). Qed.
+Example c15_ex_echo_damaged_18 : eprop_code gg (firstn 4 h_echo) tr_damaged = 18.
+Proof. exact ex_echo_damaged_18. Qed.
+Example c15_ex_stale_record_22 : eprop_code gg h_min tr_stale = 22.
+Proof. exact ex_stale_record_22. Qed.
+Example c15_ex_panic_23 : eprop_code gg h_min tr_panic = 23.
+Proof. exact ex_panic_23. Qed.
+Example c15_ex_uncovered_delivery :
+  classes (init_judge gg) h_unruly = [COut]
+  /\ wf_code (erun gg h_unruly) = 11
+  /\ eprop_code gg h_unruly (etrace (init_topo gg) h_unruly) = 0.
+Proof. exact ex_unruly. Qed.
+Example c15_ex_handler_panics :
+  eout (erun gg [EReq ([], Add C_under_D)]) (EInf ([], Update C_under_D C)) = 2.
+Proof. exact ex_handler_panics. Qed.
